@@ -62,7 +62,7 @@ CLAIMS = {
     },
     "C03": {
         "text": "Theorems for every tree, history (flat or nested, any number of generations) and ignore predicate, once the history loads: the exit codes of the current source (10,11,12,20,21,30-33, pairwise distinct); complete characterisation of how verify / diff / create end (11 over 21 over 20 over 10; 10 over 21; 11 over 10 over 30); a file is judged mismatch iff it has an original entry whose digest differs from the file's, new iff it has none; every reported mismatch / new / missing path is genuine (no false report) and every visible mismatching or unrecorded file and every expected, unvisited, non-ignored path is reported with the stated exit code (completeness); a clean tree exits 0; a path with an ignored component is reported nowhere. Tie: seal-then-mutate scenarios with harness-side ground truth (alter/append/truncate, delete files and empty directories, add files, touch mtimes, edit ignored files; flat and nested, several generations, path spellings) on implementation and model; monitor: exit code and reported path sets against the ground truth.",
-        "note": "'Unchanged since sealed' refers to folder-mode create. C03e2e composes createFolder, applyWritten and verify/diff/create of the model: a freshly sealed tree verifies with exit 0 and empty reports, every later create succeeds, an altered file gives 11 naming exactly that file (for every tree, option set and digest function); C04nested extends the unchanged-tree half to nested histories of any depth; missing_not_on_disk: nothing that is on disk is reported missing, whatever the patterns (D16). " + COMMON_NOTE,
+        "note": "'Unchanged since sealed' refers to folder-mode create. C03e2e composes createFolder, applyWritten and verify/diff/create of the model: a freshly sealed tree verifies with exit 0 and empty reports, every later create succeeds, an altered file gives 11 naming exactly that file (for every tree, option set and digest function); C04nested extends the unchanged-tree half to nested histories of any depth; missing_not_on_disk: nothing that is on disk is reported missing, whatever the patterns (D16).  C03nested: the same pipeline for a folder that contains already sealed nested histories of any depth (loads after sealing, verifies with exit 0, an altered / removed / added file gives 11 / 10 / 21 naming exactly that path relative to the command root)." + COMMON_NOTE,
         "technique": "Lean 4 proof (decision logic stated outright + membership characterisations over the shared traversal) + mutation scenarios with ground truth + differential",
         "design_ref": "7 C03",
     },
@@ -74,7 +74,7 @@ CLAIMS = {
     },
     "C09": {
         "text": "Theorems: verify -dh never ends with an internal error (its result is 0, 12 or the refusal code of loading) on any input; a format is marked failed iff a recorded entry in a computed format differs in content or structure hash; exit 12 iff every computed format failed; the computed formats are exactly the formats occurring in recorded root hashes; if the root hash of the tree differs from what every generation recorded (in every recorded format) the exit is 12 - including changes directly in the root folder (the former defect); if nothing fails the exit is 0. The false wording 'some generation has a root hash' is refuted by a witness (a root hash without entries) and replaced by 'with at least one entry'. Tie/monitor: sealed trees (flat folders without sub-directories, nested histories in other formats, -n generations, several generations) with one mutation at any depth (content, rename, add, remove, empty directories) or none: expected 12 / 0, never an exception.",
-        "note": "That a changed tree has a different root hash rests on the digest inequalities made explicit in C07; the scenarios use contents whose digests differ (observed). " + COMMON_NOTE,
+        "note": "That a changed tree has a different root hash rests on the digest inequalities made explicit in C07; the scenarios use contents whose digests differ (observed).  C09nested: which recorded entries each folder is compared with on nested trees, exit 0 after sealing from the outer root (iterable), and 12 exactly when every verified format has a compared entry that differs from the compositional definition of the current tree." + COMMON_NOTE,
         "technique": "Lean 4 proof (fold invariant over the traversal, decision logic) + mutation scenarios + differential",
         "design_ref": "7 C09",
     },
